@@ -57,6 +57,19 @@ Theorem C05_unknown_kind : forall s t,
 Proof. exact unknown_kind_rejected. Qed.
 Print Assumptions C05_unknown_kind.
 
+(** The sequential lookup of the state machine (Model/Sys.v [lookup], used by C01-C04, C10, C19: "Get with an expired
+    context") is the uninterrupted schedule of this model: alone, a hit returns the value at once without subscribing; a
+    miss registers, issues exactly one subscription request and - its deadline fired - returns an error, leaving no
+    notifier behind. *)
+Theorem C05_sequential_hit : forall s t k v, kget t (c_threads s) = None -> kget k (c_cache s) = Some v ->
+  thread_result (cstep s (EInvoke t k)) t = Some (RVal v) /\ c_watches (cstep s (EInvoke t k)) = c_watches s.
+Proof. exact sequential_hit. Qed.
+Theorem C05_sequential_miss : forall s t k, kget t (c_threads s) = None -> kget k (c_cache s) = None -> kget k (c_nmap s) = None ->
+  let s' := fold_left cstep [EInvoke t k; EStep t; EFire t; ETimeout t] s in
+  thread_result s' t = Some RErr /\ c_watches s' = (c_watches s ++ [k])%list /\ kget k (c_nmap s') = None /\ c_cache s' = c_cache s.
+Proof. exact sequential_miss. Qed.
+Print Assumptions C05_sequential_miss.
+
 Example C05_example :
   (* the wake-up/removal race: delivered, then removed by a full response before the woken lookup re-reads: an error, not nil *)
   thread_result (crun [EInvoke 0 7; EStep 0; EDeliver true [(7, 42)] [7; 8]; EDeliver true [(8, 43)] [7; 8]; EWake 0]) 0 = Some RErr.
